@@ -10,8 +10,10 @@ else
 fi
 # the two largest thorough spaces (2*10^9 add/sub pairs, all 2^32 floats) stay at their quick size here
 _tier_of() { case "$1" in c01|c08) echo quick ;; *) echo "$tier" ;; esac; }
-build rel c14 || exit 2
-build relcheck c14 $_f2 || exit 2
+( build rel c14; echo $? > "$ROOT/target/c14-build-rel.rc" ) &
+build relcheck c14 $_f2; _b=$?
+wait
+[ $_b -eq 0 ] && [ "$(cat "$ROOT/target/c14-build-rel.rc")" = 0 ] || exit 2
 for cfg in rel relcheck; do
   NBMC_NO_PYREF=1 NBMC_PART=c14-$cfg NBMC_CONFIG=$cfg "$(bindir $cfg)/c14" "$tier"; _r=$?
   [ $_r -gt $_rc ] && _rc=$_r
